@@ -254,7 +254,7 @@ func runC02(c *core.Ctx) {
 	n := c.Pick(600, 4000)
 	c.RunHistories(n, Registry["C02"].Mons, func(w *core.World) {
 		wts := map[string]int{
-			"edit-new": 14, "edit-mod": 8, "edit-mod-samesize": 3, "edit-rm": 4, "edit-rmdir": 2, "edit-same": 1,
+			"edit-new": 14, "edit-copy": 2, "edit-copydir": 1, "edit-mod": 8, "edit-mod-samesize": 3, "edit-rm": 4, "edit-rmdir": 2, "edit-same": 1,
 			"add": 16, "add-all": 2, "rm": 4, "commit": 14, "commit-all": 4,
 			"restore": 2, "restore-staged": 4, "reset": 4,
 			"branch-create": 3, "switch": 3, "switch-c": 2, "branch-rename": 1, "config": 1,
